@@ -14,6 +14,7 @@ from pest.grammar import Choice
 from pest.grammar import Repeat
 from pest.grammar import Rule
 from pest.grammar.expressions import OptimizedChoiceRepeat
+from pest.grammar.expressions.choice import is_order_independent
 from pest.grammar.rule import ATOMIC
 from pest.grammar.rule import COMPOUND
 from pest.grammar.rule import SILENT
@@ -148,7 +149,7 @@ class Optimizer:
             and isinstance(whitespace.expression, Choice)
         ):
             expr = squash(whitespace.expression.expressions, OptimizedChoiceRepeat())
-            if expr:
+            if expr and is_order_independent(expr.choices):
                 rules["SKIP"] = Rule("SKIP", expr, SILENT_ATOMIC)
 
     def _run_once(
